@@ -985,6 +985,14 @@ func (vc *VC) evalTypeAssert(x *ast.TypeAssertExpr, st *State, commaOk bool) (Te
 
 func (vc *VC) typeAssert(v Term, to types.Type, st *State, pos token.Pos, commaOk bool) (Term, Term) {
 	if v.Sort == SErr {
+		if commaOk {
+			// `e, ok := err.(T)`: which concrete error types exist is not modelled;
+			// both outcomes are possible (only the nil error certainly fails) and
+			// the asserted value is unknown
+			ok := vc.freshOfSort("ok", SBool, nil)
+			vc.assume(st.pc, tImp(tEq(v, Term{"err.nil", SErr, nil}), tNot(ok)))
+			return vc.unknown("ta", to), ok
+		}
 		vc.unsupportedf(pos, "type assertion on error value")
 		return vc.unknown("ta", to), vc.freshOfSort("ok", SBool, nil)
 	}
